@@ -274,12 +274,29 @@ def build(shape, size, rng):
         return font, samples
     if shape == "singlepos":
         # SinglePos format 2: one full value record per glyph (splitSinglePos)
-        n = size
+        # (a negative size: the lower half of the glyphs only has placements, the upper half advances as
+        # well - the two halves of a split need different value formats)
+        halves = size < 0
+        n = abs(size)
         font, names = make_font(1 + n)
         gm = font.getReverseGlyphMap()
-        rec = lambda i: {"XPlacement": (i * 3) % 211 - 100, "YPlacement": (i * 5) % 157 - 70, "XAdvance": (i * 7) % 401 - 200, "YAdvance": 0}  # noqa: E731
+        rec = lambda i: {"XPlacement": (i * 3) % 211 - 100, "YPlacement": 0 if halves else (i * 5) % 157 - 70, "XAdvance": 0 if halves and i < n // 2 else (i * 7) % 401 - 200 or 3, "YAdvance": 0}  # noqa: E731
         mapping = {names[1 + i]: B.buildValue({k_: v for k_, v in rec(i).items()}) for i in range(n)}
-        sts = B.buildSinglePos(mapping, gm)
+        if halves:
+            # one subtable for all glyphs (the builder would sort them into one subtable per value format)
+            from fontTools.ttLib.tables import otTables as ot
+
+            st = ot.SinglePos()
+            st.Format = 2
+            st.Coverage = B.buildCoverage([names[1 + i] for i in range(n)], gm)
+            st.Value = [mapping[g] for g in st.Coverage.glyphs]
+            st.ValueFormat = 0
+            for v in st.Value:
+                st.ValueFormat |= v.getFormat()
+            st.ValueCount = len(st.Value)
+            sts = [st]
+        else:
+            sts = B.buildSinglePos(mapping, gm)
         assemble(font, "GPOS", [B.buildLookup(sts)], "kern")
 
         def samples(r, kk=160):
